@@ -17,6 +17,11 @@ pub fn parsing_scope() -> Scope {
   scope
 }
 
+thread_local! {
+  static WS: std::cell::RefCell<Vec<char>> = std::cell::RefCell::new(vec![]);
+  static WS_NEXT: std::cell::Cell<usize> = std::cell::Cell::new(0);
+}
+
 /// Token-preserving layouts. Tokens marked "~" (declared names, type tokens) are "soft": kinds 0-2 never put a
 /// comment directly after them, kind 3 puts comments only there.
 pub fn layout(tokens: &[String], kind: usize, rng: &mut Rng) -> String {
@@ -29,6 +34,16 @@ pub fn layout(tokens: &[String], kind: usize, rng: &mut Rng) -> String {
         0 => s.push(' '),
         1 => s.push_str(["  ", "\t", "\n", " \n\t ", "   "][rng.below(5) as usize]),
         2 => s.push_str(if prev_soft { " " } else { COMMENTS[rng.below(7) as usize] }),
+        4 => {
+          // every white space character of the grammar (FeelSyntax!WhiteSpace, set by the check), one after the other
+          let ws = WS.with(|w| w.borrow().clone());
+          let k = WS_NEXT.with(|c| {
+            let k = c.get();
+            c.set(k + 1);
+            k
+          });
+          s.push(if ws.is_empty() { ' ' } else { ws[k % ws.len()] });
+        }
         _ => s.push_str(if prev_soft { COMMENTS[rng.below(7) as usize] } else { " " }),
       }
     }
@@ -65,7 +80,7 @@ pub fn run_case(scope: &Scope, case: &J, rng: &mut Rng) -> J {
     }
     let t = toks(&case[key]);
     let mut parsed = vec![];
-    for kind in 0..3 {
+    for kind in [0usize, 1, 2, 4] {
       let text = layout(&t, kind, rng);
       parsed.push(parse(scope, &text));
       if kind == 0 {
@@ -146,6 +161,12 @@ pub fn check(mut ctx: Ctx, replay: Option<J>) -> ! {
       tool_error(&format!("Gen_C06 failed: {}", gen.error_text));
     }
     cases = gen.tagged("CASE");
+    let ws: Vec<char> = gen.tagged("WS").pop().and_then(|w| w.as_array().map(|a| a.iter().filter_map(|c| c.as_u64().and_then(|c| char::from_u32(c as u32))).collect())).unwrap_or_default();
+    if ws.len() < 22 {
+      tool_error("the white space set of FeelSyntax was not printed");
+    }
+    ctx.cov("white_space_characters", json!(ws.len()));
+    WS.with(|w| *w.borrow_mut() = ws);
     if cases.len() < 1500 {
       tool_error("too few syntax trees generated");
     }
